@@ -4,6 +4,7 @@
 import NiVerif.Model.Port
 import NiVerif.Proofs.Bits
 import NiVerif.Proofs.PortLemmas
+import NiVerif.Gen.PortLine
 
 namespace Props.C06
 open Model.Port
@@ -263,5 +264,28 @@ example : Gen.Port._mask_to_column_indices 0xDEADBEEF 32 "big"
 example : portToLine [0, 1, 2, 3] 8 3 true = .ok [[0, 0], [0, 1], [1, 0], [1, 1]] := by decide +kernel
 example : portToLine [0, 1, 2, 3] 8 3 false = .ok [[0, 0], [1, 0], [0, 1], [1, 1]] := by decide +kernel
 example : portToLine [1] 8 511 true = .error .ValueError := by decide +kernel
+
+/-! ### T20: `port_to_line_data` as regenerated from `_port.py` is the model's `portToLine` -/
+
+/-- **the generated `port_to_line_data` is the model's `portToLine`** for every sample list, port width, mask and bit order: the mask
+    check, the full-mask shortcut, and otherwise the columns of the (generated, tier T8) mask loop -/
+theorem gen_port_to_line_eq_model (values : List Nat) (w : Nat) (mask : Int) (bo : String) :
+    Gen.PortLine.port_to_line_data values (w : Int) mask bo = portToLine values w mask (decide (bo = "big")) := by
+  unfold Gen.PortLine.port_to_line_data portToLine
+  simp only [Int.toNat_natCast]
+  cases hb : Gen.Port.bit_mask (w : Int) with
+  | error err => rfl
+  | ok full =>
+    simp only [Except.bind]
+    by_cases h1 : mask > full
+    · simp [h1]
+    · simp only [h1, if_false]
+      by_cases h2 : mask = full
+      · simp [h2]
+      · simp only [h2, if_false]
+        rw [gen_columns_eq_model]
+        cases maskToColumns mask w (decide (bo = "big")) with
+        | error err => rfl
+        | ok cols => simp [Except.map, List.map_map, Function.comp]
 
 end Props.C06
